@@ -79,6 +79,14 @@ func verifDir() string {
 	return "/verif"
 }
 
+// outDir: where evidence and replays are written (/verif unless redirected for experiments on scratch trees)
+func outDir() string {
+	if d := os.Getenv("VERIF_OUT_DIR"); d != "" {
+		return d
+	}
+	return verifDir()
+}
+
 func loadKnown() *knownFile {
 	k := &knownFile{}
 	b, err := os.ReadFile(filepath.Join(verifDir(), "known_findings.json"))
@@ -302,7 +310,7 @@ func cmdCheck(args []string) int {
 	}
 	for _, v := range vacuous {
 		// a contradictory context proves everything: refuse to call that a pass
-		rp := filepath.Join(verifDir(), "replays", id, "vacuous-"+sanitize(v)+".json")
+		rp := filepath.Join(outDir(), "replays", id, "vacuous-"+sanitize(v)+".json")
 		os.MkdirAll(filepath.Dir(rp), 0o755)
 		os.WriteFile(rp, []byte(fmt.Sprintf("{\"obligation\":\"cover/%s\",\"reason\":\"normal exit provably unreachable under the contract's preconditions and assumed callee contracts (vacuous proof context)\"}", v)), 0o644)
 		line := fmt.Sprintf("VIOLATION property=%s replay=%s no-failing-input-found", id, rp)
@@ -400,9 +408,9 @@ func cmdCheck(args []string) int {
 		"property_id": id, "tier": tier.Name, "seed": seed, "level": level, "coverage": cov,
 		"assumptions": trusted, "wall_s": time.Since(t0).Seconds(), "violations": len(violations),
 	}
-	os.MkdirAll(filepath.Join(verifDir(), "evidence"), 0o755)
+	os.MkdirAll(filepath.Join(outDir(), "evidence"), 0o755)
 	b, _ := json.MarshalIndent(ev, "", " ")
-	os.WriteFile(filepath.Join(verifDir(), "evidence", id+".json"), b, 0o644)
+	os.WriteFile(filepath.Join(outDir(), "evidence", id+".json"), b, 0o644)
 	fmt.Printf("%s: %d obligations generated, %d claimed, %d discharged, %d known findings, %d undecided (unclaimed), %d violations, %.1fs\n",
 		id, total, claimed, discharged, knownHit, undecided, len(violations), time.Since(t0).Seconds())
 	if len(violations) > 0 {
@@ -446,7 +454,7 @@ type replayResult struct {
 }
 
 func writeReplay(e *Engine, run *PropRun, r *FnResult, o *Obligation) replayResult {
-	dir := filepath.Join(verifDir(), "replays", run.ID)
+	dir := filepath.Join(outDir(), "replays", run.ID)
 	os.MkdirAll(dir, 0o755)
 	h := sha1.Sum([]byte(o.Name))
 	path := filepath.Join(dir, fmt.Sprintf("%s-%x.json", sanitize(o.Kind), h[:6]))
